@@ -289,6 +289,19 @@ func getCraftEnv() *craftEnv {
 
 func craftOp(seed uint64, idx int, create bool) json.RawMessage {
 	nonce := base64.StdEncoding.EncodeToString(NonceFor(seed, idx))
+	// the stored form is whatever bytes a (foreign) writer produced: vary key order and whitespace
+	switch (seed + uint64(idx)) % 3 {
+	case 1:
+		if create {
+			return json.RawMessage(fmt.Sprintf(`{ "title": "crafted %d", "message": "m", "files": null, "nonce": %q, "timestamp": %d, "type": 1 }`, idx, nonce, 1000+idx))
+		}
+		return json.RawMessage(fmt.Sprintf(`{ "message": "comment %d", "nonce": %q, "timestamp": %d, "type": 3 }`, idx, nonce, 1000+idx))
+	case 2:
+		if create {
+			return json.RawMessage(fmt.Sprintf("{\n \"type\":1,\n \"timestamp\":%d,\n \"nonce\":%q,\n \"title\":\"crafted %d\",\n \"message\":\"m\",\n \"unknown_field\":true\n}", 1000+idx, nonce, idx))
+		}
+		return json.RawMessage(fmt.Sprintf("{\n \"type\":3,\n \"timestamp\":%d,\n \"nonce\":%q,\n \"message\":\"comment %d\"\n}", 1000+idx, nonce, idx))
+	}
 	if create {
 		return json.RawMessage(fmt.Sprintf(`{"type":1,"timestamp":%d,"nonce":%q,"title":"crafted %d","message":"m","files":null}`, 1000+idx, nonce, idx))
 	}
@@ -537,7 +550,7 @@ func buildCraft(repo repository.RepoData, authors []string, c craftCase, refPref
 	}
 	// the history must also be one the bug format allows (first operation of the root is the create)
 	rootPack := d.Packs[d.Roots()[0]]
-	if len(rootPack.RawOps) == 0 || !strings.Contains(string(rootPack.RawOps[0]), `"type":1`) {
+	if len(rootPack.RawOps) == 0 || !(strings.Contains(string(rootPack.RawOps[0]), `"type":1`) || strings.Contains(string(rootPack.RawOps[0]), `"type": 1`)) {
 		if out.verdict == "accept" {
 			out.verdict = "either"
 		}
